@@ -878,6 +878,21 @@ MODES = {"network": ["direct", "json", "file-abs", "file-rel", "reserialise", "a
 def run(ctx):
     rng = ctx.rng
     aliases = reader_aliases()
+    ctx.notes += [
+        "roundtrip / reserialise are proved through the generic reader+writer for species (scalar and per-environment quantities, "
+        "theorems species_roundtrip, species_reserialise); for reaction, network, grid, graph, system, script the per-kind laws "
+        "(written_dict_passes_keys on the generated key lists of every class, units_roundtrip, quantity_roundtrip, env_roundtrip, "
+        "unit_array_physical, omitted_key_reads_default, paths, multi_file_equals_inline) are proved and the class-level assembly is "
+        "covered by the correspondence (model vs real reader/writer) and the oracle, not by a theorem (roundtrip_partial); "
+        "trajectories (save/load only, no dictionary functions) are covered by the key tables and the oracle only",
+        "alias_interchangeable is proved on the generated tables (aliases_disjoint, emitted_keys_accepted: canonical keys, "
+        "documented_aliases_accepted); the general statement about process_input_dict_keys on a renamed dictionary is not proved: "
+        "oracle mode `alias` + correspondence edits `alias` / `two-synonyms`",
+        "Printable (the printed unit text is read back with the same dimension, SI scale and text) is a hypothesis of the quantity "
+        "theorems: it is the print/parse law of the unit grammar (C18); discharged by evaluation for example units (printable_examples)",
+        "the model reproduces the reader's behaviour for an omitted \"space\" (constructor default RDGridSpace() in default units): when "
+        "proposed_fixes/c12_system_space_default.diff is applied to the repository, Model/Dict.lean `systemFromDict` must follow",
+    ]
     ctx.extra["reader_alias_groups"] = {k: len(v) for k, v in aliases.items()}
     counts = {"network": ctx.n(40, 1500), "grid": ctx.n(30, 800), "graph": ctx.n(30, 800), "system": ctx.n(40, 1500),
               "script": ctx.n(40, 1500), "trajectory": ctx.n(25, 600)}
